@@ -392,6 +392,16 @@ fn small_inputs(format: Format, tier: Tier) -> Vec<Vec<u8>> {
         }
     }
     let mut out: Vec<Vec<u8>> = files.iter().map(|f| f.bytes()).collect();
+    // marker bytes inside fields: a stale offset landing on them would pass the start / separator tests
+    match format {
+        Format::Fastq => {
+            out.push(b"@AB\nCD\n+\nEF\n@GHIJK@LM\nN\n+\nO\n".to_vec());
+            out.push(b"@A\nBCDEFGHIJK\n+\nLMNOPQRSTU\n@V@W\n@\n+\n+\n".to_vec());
+        }
+        Format::Fasta => {
+            out.push(b">AB>C\nDE>F\n>G\nH\n".to_vec());
+        }
+    }
     out.sort();
     out.dedup();
     out
@@ -475,7 +485,7 @@ pub fn c06(tier: Tier) -> i32 {
                     for k in 0..t {
                         let mut env = env0.clone();
                         env.fault = Some(Fault { at: k, kind: FaultKind::Other });
-                        let mut alphabet = vec![Op::N, Op::SA, Op::E(2), Op::K(0)];
+                        let mut alphabet = vec![Op::N, Op::SA, Op::E(2), Op::K(0), Op::PStd];
                         if n >= 2 {
                             alphabet.push(Op::K(n - 1));
                         }
